@@ -4,5 +4,6 @@ CONSTANTS MaxGrow = 3
           MaxShrink = 1
           RandPerKind = 60
           Seed = 1
-INVARIANTS NormIdem NormBelow NormalAgrees L2ImpliesL1 L2Idem Emit
+          MaxHist = 2
+INVARIANTS NormIdem NormBelow NormalAgrees L2ImpliesL1 L2Idem RecvReplaceL1 Emit
 CHECK_DEADLOCK FALSE
